@@ -18,10 +18,11 @@ import Driver.RxnNorm
 import Driver.CrnCanon
 import Driver.ReactorInv
 import Driver.Reactor
+import Driver.BipGraph
 open Lean
 
 /-- All command handlers; the first one that knows the command answers. -/
-def handlers : List Driver.Handler := [Driver.Store.handle, Driver.Match.handle, Driver.ITS.handle, Driver.SubgraphSearch.handle, Driver.GME.handle, Driver.Petri.handle, Driver.Deficiency.handle, Driver.Views.handle, Driver.Canon.handle, Driver.Automorphism.handle, Driver.Mcs.handle, Driver.Cluster.handle, Driver.Stoich.handle, Driver.BatchCache.handle, Driver.Repr.handle, Driver.RxnNorm.handle, Driver.CrnCanon.handle, Driver.ReactorInv.handle, Driver.Reactor.handle]
+def handlers : List Driver.Handler := [Driver.Store.handle, Driver.Match.handle, Driver.ITS.handle, Driver.SubgraphSearch.handle, Driver.GME.handle, Driver.Petri.handle, Driver.Deficiency.handle, Driver.Views.handle, Driver.Canon.handle, Driver.Automorphism.handle, Driver.Mcs.handle, Driver.Cluster.handle, Driver.Stoich.handle, Driver.BatchCache.handle, Driver.Repr.handle, Driver.RxnNorm.handle, Driver.CrnCanon.handle, Driver.ReactorInv.handle, Driver.Reactor.handle, Driver.BipGraph.handle]
 
 def dispatch (line : String) : Json :=
   match Json.parse line with
